@@ -323,3 +323,46 @@ def code_manifest(pkg_dir, doc):
         else:
             out[name] = {"count": 0}
     return out, idx
+
+
+def client_manifest(pkg_dir):
+    """{"<ClientClass>": {"<method>": "<args> -> <ret>"}, "APIClient": {"props": [...]}} read through ast"""
+    out = {}
+    errors = []
+    ed = os.path.join(pkg_dir, "endpoints")
+    files = []
+    if os.path.isdir(ed):
+        files = [os.path.join(ed, f) for f in sorted(os.listdir(ed)) if f.endswith(".py") and f != "__init__.py"]
+    for p in files:
+        try:
+            tree = ast.parse(open(p, encoding="utf-8").read())
+        except SyntaxError as e:
+            errors.append((os.path.basename(p), e.msg))
+            continue
+        for node in tree.body:
+            if isinstance(node, ast.ClassDef) and not node.name.endswith("Protocol"):
+                meths = {}
+                for st in node.body:
+                    if isinstance(st, (ast.AsyncFunctionDef, ast.FunctionDef)) and not st.name.startswith("__"):
+                        if any("overload" in ast.unparse(d) for d in st.decorator_list):
+                            meths.setdefault(st.name + "@overloads", []).append(
+                                f"({ast.unparse(st.args)}) -> {ast.unparse(st.returns) if st.returns else None}")
+                            continue
+                        kind = "async " if isinstance(st, ast.AsyncFunctionDef) else ""
+                        meths[st.name] = f"{kind}({ast.unparse(st.args)}) -> {ast.unparse(st.returns) if st.returns else None}"
+                for k in list(meths):
+                    if isinstance(meths[k], list):
+                        meths[k] = sorted(meths[k])
+                out[node.name] = meths
+    cp = os.path.join(pkg_dir, "client.py")
+    if os.path.exists(cp):
+        try:
+            tree = ast.parse(open(cp, encoding="utf-8").read())
+            for node in tree.body:
+                if isinstance(node, ast.ClassDef) and node.name == "APIClient":
+                    props = sorted(st.name for st in node.body if isinstance(st, ast.FunctionDef)
+                                   and any("property" in ast.unparse(d) for d in st.decorator_list))
+                    out["APIClient"] = {"props": props}
+        except SyntaxError as e:
+            errors.append(("client.py", e.msg))
+    return out, errors
